@@ -234,6 +234,14 @@ func init() {
 		{Kind: "calls", File: gd + "compiler.go", Func: "RPCCompiler.getEnumValue", Name: "getEnumValue", Match: gm},
 		{Kind: "calls", File: gd + "compiler.go", Func: "RPCCompiler.setValueForKind", Name: "setValueForKind", Match: gm},
 	}
+	// C04: the rule set of the default validator and the order of the admission sequence
+	specs["C04"] = []item{
+		{Kind: "calls", File: "v2/pkg/astvalidation/operation_validation.go", Func: "DefaultOperationValidator", Name: "defaultRules", Match: []string{"validator.RegisterRule", "AllVariablesUsed", "AllVariableUsesDefined", "DocumentContainsExecutableOperation", "OperationNameUniqueness", "LoneAnonymousOperation", "SubscriptionSingleRootField", "FieldSelections", "FieldSelectionMerging", "KnownArguments", "Values", "ArgumentUniqueness", "RequiredArguments", "Fragments", "DirectivesAreDefined", "DirectivesAreInValidLocations", "VariableUniqueness", "DirectivesAreUniquePerLocation", "VariablesAreInputTypes"}},
+		{Kind: "calls", File: "execution/engine/execution_engine.go", Func: "ExecutionEngine.Execute", Name: "admissionSequence", Match: []string{"operation.Normalize", "operation.ValidateForSchema", "astnormalization.*", "astvalidation.*", "variablesvalidation.*", "validator.ValidateWithRemap"}},
+		{Kind: "calls", File: "v2/pkg/astvalidation/operation_rule_required_arguments.go", Func: "requiredArgumentsVisitor.EnterField", Name: "requiredArgumentsEnterField", Match: []string{"if", "return", "for", "r.*", "bytes.*"}},
+		{Kind: "calls", File: "v2/pkg/astvalidation/operation_rule_all_variable_uses_defined.go", Func: "allVariableUsesDefinedVisitor.EnterArgument", Name: "allVariableUsesDefinedEnterArgument", Match: []string{"if", "return", "for", "a.*", "bytes.*"}},
+		{Kind: "calls", File: "v2/pkg/astvalidation/operation_rule_known_arguments.go", Func: "knownArgumentsVisitor.EnterArgument", Name: "knownArgumentsEnterArgument", Match: []string{"if", "return", "for", "v.*", "bytes.*"}},
+	}
 	// C15: the literal → JSON converter and the block string value
 	av := "v2/pkg/ast/ast_value.go"
 	asv := "v2/pkg/ast/ast_val_string_value.go"
